@@ -2,7 +2,7 @@
    harness/selftest at setup: every unit answers a probe). *)
 From Coq Require Import ZArith List Bool.
 From VL Require Import Prelude.Sx Model.Units.
-From VL Require Import Model.Units_C07 Model.Units_C08 Model.Units_C10 Model.Units_C11 Model.Units_C14 Model.Units_C17 Model.Units_C18 Model.Units_C19 Model.Units_C12 Model.Units_C05 Model.Units_C13.
+From VL Require Import Model.Units_C07 Model.Units_C08 Model.Units_C10 Model.Units_C11 Model.Units_C14 Model.Units_C17 Model.Units_C18 Model.Units_C19 Model.Units_C12 Model.Units_C05 Model.Units_C13 Model.Units_C03.
 From VL Require Import Model.Units_C15.
 Import ListNotations.
 Open Scope Z_scope.
@@ -51,5 +51,6 @@ Definition dispatch (u : Z) (a : sx) : sx :=
       else if (200 <=? u) && (u <? 210) then u_c05 (u - 200) a
       else if (210 <=? u) && (u <? 220) then u_c13 (u - 210) a
       else if (250 <=? u) && (u <? 260) then u_c15 (u - 250) a
+      else if (300 <=? u) && (u <? 310) then u_c03 (u - 300) a
       else bad_input
   end.
